@@ -357,3 +357,277 @@ fire('query-swallows-exceptions', ['C20'], ['C20.U3'],
          "            if function is not None:\n                try:\n                    yield from function(*args)\n                except Exception:\n                    return"))
 fire('query-reversed-args', ['C20'], ['C20.U4'],
      (E, "                yield from function(*args)", "                yield from function(*reversed(args))"))
+
+# =============================================================================================
+# compiler side
+# ---------------------------------------------------------------------------------------------
+# C01
+fire('anon-counter-not-incremented', ['C01'], ['C01.V1'],
+     (V, "            variable = AnonymousVariableTerm(self.anonymousVariableCounter)\n            self.anonymousVariableCounter += 1\n",
+         "            variable = AnonymousVariableTerm(self.anonymousVariableCounter)\n"))
+fire('listpair-variables-drop-tail', ['C01'], ['C01.V2'],
+     (V, "        return self.head.variables + self.tail.variables\n", "        return self.head.variables\n"))
+fire('functor-variables-first-arg-only', ['C01'], ['C01.V2'],
+     (V, "        return functools.reduce(lambda x,y: x + y, [ v.variables for v in self.args ], [])", "        return []"))
+fire('declarations-after-body', ['C01'], ['C01.V3'],
+     (G, "        return head_var_arguments + free_var_declaration_code_head + free_var_declaration_code_body + arg_list_unification_code",
+         "        return head_var_arguments + free_var_declaration_code_head + arg_list_unification_code + free_var_declaration_code_body"))
+fire('missing-pop-bound-vars', ['C01'], ['C01.V3'],
+     (G, "        self.pop_bound_vars()\n        self.pop_bound_vars()\n        self.pop_bound_vars()\n", "        self.pop_bound_vars()\n        self.pop_bound_vars()\n"))
+fire('alias-test-inverted', ['C01'], ['C01.H1'],
+     (G, "            if self.head_args_by_pos[i-1] == None:\n                argvar", "            if self.head_args_by_pos[i-1] != None:\n                argvar"))
+fire('conj-sequence-instead-of-nesting', ['C01', 'C06'], ['C01.N1', 'C06.R'],
+     (G, "                    coderhs = self.compile_body(body.rhs)\n                    return self.compile_predicate(body.lhs, coderhs)",
+         "                    coderhs = self.compile_body(body.rhs)\n                    return self.compile_predicate(body.lhs, []) + coderhs"))
+silent('conj-introduce-local', ['C01', 'C05', 'C06'],
+       (G, "                    coderhs = self.compile_body(body.rhs)\n                    return self.compile_predicate(body.lhs, coderhs)",
+           "                    goal = body.lhs\n                    rest = body.rhs\n                    return self.compile_predicate(goal, self.compile_body(rest))"))
+
+# ---------------------------------------------------------------------------------------------
+# C05
+fire('cut-conj-no-return', ['C05'], ['C05.R'],
+     (G, "                code_a = self.compile_body(body.rhs)\n                return code_a + [ YPCodeYieldBreak() ]", "                code_a = self.compile_body(body.rhs)\n                return code_a"))
+fire('cut-last-no-return', ['C05'], ['C05.R'],
+     (G, "            return [ YPCodeYieldTrue(), YPCodeYieldBreak() ]", "            return [ YPCodeYieldTrue() ]"))
+fire('yieldbreak-as-break', ['C05'], ['C05.B1'],
+     (G, "    def generate_yield_break(self,yb):\n        return self.l(\"return\")", "    def generate_yield_break(self,yb):\n        return self.l(\"break\")"))
+fire('each-clause-own-function', ['C05'], ['C05.F1'],
+     (G, """        for func,clauses in program.items():
+            self._debug(f'Compiling clauses for {func}')
+            body = itertools.chain.from_iterable( self.compile_function_body(c) for c in clauses )
+            funcs.append(self.compile_function(func,body))""",
+         """        for func,clauses in program.items():
+            self._debug(f'Compiling clauses for {func}')
+            for c in clauses:
+                funcs.append(self.compile_function(func,self.compile_function_body(c)))"""))
+fire('match-all-clauses-cut-on-truthy-query', ['C05', 'C20'], ['C05.F2', 'C20.U2'],
+     (E, "            if function is not None:\n                yield from function(*args)",
+         "            if function is not None:\n                for r in function(*args):\n                    yield r\n                    if r:\n                        return"))
+
+# ---------------------------------------------------------------------------------------------
+# C06
+fire('disj-distribution-drops-continuation', ['C06'], ['C06.R'],
+     (G, """                        DisjunctionPredicate(
+                            ConjunctionPredicate(body.lhs.lhs,body.rhs),
+                            ConjunctionPredicate(body.lhs.rhs,body.rhs)
+                        )""",
+         """                        DisjunctionPredicate(
+                            ConjunctionPredicate(body.lhs.lhs,body.rhs),
+                            body.lhs.rhs
+                        )"""))
+fire('negation-inverted', ['C06'], ['C06.R'],
+     (G, """                            IfThenPredicate(body.lhs.pred,FailPredicate()),
+                            TruePredicate()""",
+         """                            IfThenPredicate(body.lhs.pred,TruePredicate()),
+                            FailPredicate()"""))
+fire('ifthen-without-else-succeeds', ['C06'], ['C06.R'],
+     (G, """                                IfThenPredicate(body.lhs.condition,body.lhs.action),
+                                FailPredicate()""",
+         """                                IfThenPredicate(body.lhs.condition,body.lhs.action),
+                                TruePredicate()"""))
+fire('ite-without-block', ['C06'], ['C06.R'],
+     (G, "                return [ YPCodeBreakableBlock(cut_if_label,code) ]", "                return code"))
+fire('foreach-no-break-propagation', ['C06'], ['C06.B1'],
+     (G, "        break_code = self.generate_break_code()\n        return self.lines(s, code, break_code)", "        return self.lines(s, code)"))
+fire('block-resets-flag-unconditionally', ['C06'], ['C06.B1'],
+     (G, """        lines.append(self.l("if %s:" % bb.label))
+        self.indent()
+        #      doBreak = False
+        lines.append(self.l("doBreak = False"))
+        self.dedent()""",
+         """        lines.append(self.l("doBreak = False"))"""))
+fire('compile-body-missing-fail-case', ['C06'], ['C06.X1'],
+     (G, """            elif isinstance(body.lhs,FailPredicate):
+                self._debug("------ case: fail , _ ")
+                return []
+""", ""))
+fire('visitor-swaps-comma-semicolon', ['C06'], ['C06.G2'],
+     (V, """            if ctx.op.text == ',':
+                lhs = self.visitPredicateexpression(ctx.predicateexpression(0))
+                rhs = self.visitPredicateexpression(ctx.predicateexpression(1))
+                return ConjunctionPredicate(lhs,rhs)""",
+         """            if ctx.op.text == ',':
+                lhs = self.visitPredicateexpression(ctx.predicateexpression(0))
+                rhs = self.visitPredicateexpression(ctx.predicateexpression(1))
+                return DisjunctionPredicate(lhs,rhs)"""))
+fire('visitor-ifthen-operands-swapped', ['C06'], ['C06.G2'],
+     (V, """            if ctx.op.text == '->':
+                lhs = self.visitPredicateexpression(ctx.predicateexpression(0))
+                rhs = self.visitPredicateexpression(ctx.predicateexpression(1))
+                return IfThenPredicate(lhs,rhs)""",
+         """            if ctx.op.text == '->':
+                lhs = self.visitPredicateexpression(ctx.predicateexpression(1))
+                rhs = self.visitPredicateexpression(ctx.predicateexpression(0))
+                return IfThenPredicate(lhs,rhs)"""))
+fire('grammar-semicolon-before-arrow', ['C06'], ['C06.G1'],
+     ('src/yldprolog/prolog.g4', """    | <assoc=right> predicateexpression op='->' predicateexpression
+    | <assoc=right> predicateexpression op=';' predicateexpression""",
+      """    | <assoc=right> predicateexpression op=';' predicateexpression
+    | <assoc=right> predicateexpression op='->' predicateexpression"""))
+silent('emitter-rename-flag', ['C05', 'C06', 'C01', 'C11', 'C12'],
+       (G, "doBreak", "brkFlag", 4))
+silent('foreach-fstring', ['C05', 'C06', 'C11', 'C12', 'C03', 'C20'],
+       (G, "        s = self.l(\"for %s in %s:\" % (loop_var,expression))", "        s = self.l(f'for {loop_var} in {expression}:')"))
+silent('compile-body-reorder-disjoint-cases', ['C05', 'C06', 'C01'],
+       (G, """        # :- fail
+        elif isinstance(body,FailPredicate):
+            self._debug("------ case: [A  =>  A, true]  fail => fail, true")
+            return self.compile_body(ConjunctionPredicate(body, TruePredicate()))
+        # :- true
+        elif isinstance(body,TruePredicate):
+            # TODO: ? return, return True, yield False (depending on state)
+            self._debug("------ case: true")
+            return [ YPCodeYieldFalse() ]""",
+           """        # :- true
+        elif isinstance(body,TruePredicate):
+            self._debug("------ case: true")
+            return [ YPCodeYieldFalse() ]
+        # :- fail
+        elif isinstance(body,FailPredicate):
+            self._debug("------ case: [A  =>  A, true]  fail => fail, true")
+            return self.compile_body(ConjunctionPredicate(body, TruePredicate()))"""))
+
+# ---------------------------------------------------------------------------------------------
+# C11
+fire('function-empty-body-no-pass', ['C11', 'C01'], ['C11.T1', 'C01.T1'],
+     (G, "        code = self.generate_code_list(func.body) or self.l(\"pass\")", "        code = self.generate_code_list(func.body)"))
+fire('numerals-verbatim', ['C11'], ['C11.L1'],
+     (G, "        return str(int(expr.val))", "        return expr.val"))
+fire('no-dead-yield', ['C11'], ['C11.T1'],
+     (G, "        return self.lines(s, unset_break_code, wrap_code, code, false_yield_code)", "        return self.lines(s, unset_break_code, wrap_code, code)"))
+fire('no-nesting-check', ['C11'], ['C11.N1'],
+     (G, "    def generate_foreach(self,loop):\n        self._check_nesting()\n", "    def generate_foreach(self,loop):\n"))
+fire('nesting-limit-too-high', ['C11'], ['C11.N1'],
+     (G, "_MAX_NESTED_BLOCKS = 20", "_MAX_NESTED_BLOCKS = 40"))
+fire('def-name-dash', ['C11', 'C08', 'C20'], ['C11.F1k', 'C08.Q2', 'C20.U1', 'C11.T1'],
+     (G, "def {func.name}_{len(func.args)}(", "def {func.name}__{len(func.args)}("))
+fire('foreach-pass-as-list', ['C11', 'C01', 'C06'], ['C11.T1', 'C01.T1', 'C06.B1'],
+     (G, "            code = self.l(\"pass\")\n", "            code = [ self.l(\"pass\") ]\n"))
+
+# ---------------------------------------------------------------------------------------------
+# C12
+fire('variables-unprefixed', ['C12', 'C11'], ['C12.T1', 'C12.T2', 'C11.L2'],
+     (V, "            variable = VariableTerm('V_' + varname)", "            variable = VariableTerm(varname)"))
+fire('head-names-unchecked', ['C12', 'C11'], ['C12.T1', 'C11.L2'],
+     (V, """                if not re.fullmatch(r'[A-Za-z_][A-Za-z0-9_]*', name):
+                    raise CompilerError(getattr(self.context, 'current_source_file', ''), ctx.clauseordirective(i),
+                        f"{name!r} cannot be used as the predicate name of a clause head")
+""", ""))
+fire('head-names-weak-regex', ['C12', 'C11'], ['C12.T1', 'C11.L2'],
+     (V, "re.fullmatch(r'[A-Za-z_][A-Za-z0-9_]*', name)", "re.match(r'[A-Za-z_][A-Za-z0-9_]*', name)"))
+fire('expr-quoted-by-hand', ['C12', 'C16'], ['C12.T1', 'C16.A6'],
+     (G, "    def generate_expr(self,expr):\n        return repr(expr.expr)", "    def generate_expr(self,expr):\n        return \"'%s'\" % expr.expr"))
+fire('builtins-not-emptied', ['C12', 'C04'], ['C12.T5', 'C04.I6'],
+     (E, "            '__builtins__': {},\n", ""))
+fire('callee-not-in-context', ['C12', 'C16'], ['C12.T3', 'C16.A5'],
+     (G, "        return [ YPCodeForeach(YPCodeCall('unify',[YPCodeVar(var),self.compile_expression(val)]), code) ]",
+         "        return [ YPCodeForeach(YPCodeCall('unify_terms',[YPCodeVar(var),self.compile_expression(val)]), code) ]"))
+fire('atom-name-in-comment-line', ['C12', 'C19'], ['C12.T6', 'C19.B2', 'C12.T1'],
+     (G, "        s = self.l(f'def {func.name}_{len(func.args)}({\",\".join(func.args)}):')",
+         "        s = self.l(f'# predicate {func.body}\\n') + self.l(f'def {func.name}_{len(func.args)}({\",\".join(func.args)}):')"))
+
+# ---------------------------------------------------------------------------------------------
+# C16
+fire('dot-constant-disagrees', ['C16'], ['C16.A1'],
+     (E, "        self.ATOM_DOT = \".\"", "        self.ATOM_DOT = \"|\""))
+fire('nil-name-disagrees', ['C16'], ['C16.A1'],
+     (E, "        if self._name == '[]':\n            return []", "        if self._name == 'nil':\n            return []"))
+fire('makelist-not-reversed', ['C16'], ['C16.A1'],
+     (E, "reversed(l), self.ATOM_NIL)", "l, self.ATOM_NIL)"))
+fire('atoms-compared-by-identity', ['C16'], ['C16.A1'],
+     (E, "            if self._name == arg._name:\n                return YPSuccess()\n            else:\n                return YPFail()\n        elif isinstance(arg, Variable):\n            return arg.unify(self)\n        else:\n            return YPFail()\n\n\nclass Variable",
+         "            if self is arg:\n                return YPSuccess()\n            else:\n                return YPFail()\n        elif isinstance(arg, Variable):\n            return arg.unify(self)\n        else:\n            return YPFail()\n\n\nclass Variable"))
+fire('compile-expression-drops-listpair', ['C16', 'C06'], ['C16.A3', 'C06.X1'],
+     (G, "        if isinstance(expr,ListPairTerm):\n            return YPCodeCall('listpair',[ self.compile_expression(expr.head), self.compile_expression(expr.tail) ])\n", ""))
+
+# ---------------------------------------------------------------------------------------------
+# C18
+fire('free-variables-set-order', ['C18'], ['C18.N1'],
+     (G, "        return list(dict.fromkeys([ v for v in variables if v not in self.bound_vars[-1] ]))",
+         "        return list(set([ v for v in variables if v not in self.bound_vars[-1] ]))"))
+fire('label-counter-module-global', ['C18', 'C04'], ['C18.N3', 'C04.I1'],
+     (G, "    def get_cut_if_label(self):\n        self.cut_if_counter += 1\n        return \"cutIf\"+str(self.cut_if_counter)",
+         "    def get_cut_if_label(self):\n        global _cut_if_counter\n        _cut_if_counter += 1\n        return \"cutIf\"+str(_cut_if_counter)"),
+     (G, "_output_header = '''#", "_cut_if_counter = 0\n\n_output_header = '''#"))
+fire('label-from-id', ['C18'], ['C18.N2'],
+     (G, "        return \"cutIf\"+str(self.cut_if_counter)", "        return \"cutIf\"+str(id(self) % 1000 + self.cut_if_counter)"))
+fire('anon-counter-on-class', ['C18'], ['C18.N4', 'C18.N3'],
+     (V, "        self.anonymousVariableCounter = 0\n", ""),
+     (V, "class YPPrologVisitor(prologVisitor):\n", "class YPPrologVisitor(prologVisitor):\n    anonymousVariableCounter = 0\n"),
+     (V, "            self.anonymousVariableCounter += 1", "            YPPrologVisitor.anonymousVariableCounter += 1"))
+fire('compiler-object-cached', ['C18'], ['C18.N4', 'C18.N3'],
+     (C, "    compiler = YPPrologCompiler(ctx)\n", "    global _compiler\n    if _compiler is None:\n        _compiler = YPPrologCompiler(ctx)\n    compiler = _compiler\n"),
+     (C, "def _compile_prolog_from_stream(inp, ctx):", "_compiler = None\n\ndef _compile_prolog_from_stream(inp, ctx):"))
+silent('free-variables-sorted-set', ['C18', 'C01'],
+       (G, "        return list(dict.fromkeys([ v for v in variables if v not in self.bound_vars[-1] ]))",
+           "        return sorted(set([ v for v in variables if v not in self.bound_vars[-1] ]))"))
+
+# ---------------------------------------------------------------------------------------------
+# C19 / C10
+fire('main-own-pipeline', ['C19'], ['C19.B1'],
+     (C, "                    pythoncode = _compile_prolog_from_stream(inf, ctx)\n",
+         "                    pythoncode = YPPythonCodeGenerator(ctx).generate(YPPrologCompiler(ctx).compile_program(YPPrologVisitor(ctx).visit(prologParser(CommonTokenStream(prologLexer(inf))).program())))\n"))
+fire('main-strips-output', ['C19'], ['C19.B1'],
+     (C, "                    outf.write(pythoncode)", "                    outf.write(pythoncode.strip())"))
+fire('debug-single-line-prefix', ['C19', 'C12'], ['C19.B2', 'C12.T6'],
+     (G, "            self.context.outf.write(''.join('# ' + line + '\\n' for line in msg.splitlines() or ['']))", "            self.context.outf.write('# ' + msg + '\\n')"))
+fire('debug-flag-changes-code', ['C19'], ['C19.B3'],
+     (G, "        unset_break_code = self.l(\"doBreak = False\")", "        unset_break_code = self.l(\"doBreak = False\")\n        if self.context.debug_generator:\n            unset_break_code = unset_break_code + '\\n' + self.l(\"pass\")"))
+fire('stdin-default-encoding', ['C19'], ['C19.B4'],
+     (C, "StdinStream(encoding='utf8')", "StdinStream()"))
+fire('tracer-alters-result', ['C19'], ['C19.B5'],
+     (V, "                result = attr(*args, **kwargs)\n", "                result = attr(*args, **kwargs) or TruePredicate()\n"))
+fire('listener-raises-valueerror', ['C19', 'C10'], ['C19.B6', 'C10.G5'],
+     (C, "        raise SyntaxCompilerError(self.filename, line, column, msg)", "        raise ValueError('%s:%d:%d:%s' % (self.filename, line, column, msg))"))
+fire('no-lexer-listener', ['C10'], ['C10.G1'],
+     (C, "    lexer.removeErrorListeners()\n    lexer.addErrorListener(listener)\n", ""))
+fire('listener-only-records', ['C10'], ['C10.G1'],
+     (C, "        raise SyntaxCompilerError(self.filename, line, column, msg)", "        self.errors = getattr(self, 'errors', []) + [(line, column, msg)]"))
+fire('no-eof-check', ['C10'], ['C10.G3'],
+     (C, """    if stream.LA(1) != Token.EOF:
+        # the grammar's start rule does not end in EOF: the parser stops where it cannot continue
+        token = stream.LT(1)
+        raise SyntaxCompilerError(filename, token.line, token.column, f"unexpected input '{token.text}'")
+""", ""))
+fire('eof-check-inverted', ['C10'], ['C10.G3'],
+     (C, "    if stream.LA(1) != Token.EOF:", "    if stream.LA(1) == Token.EOF:"))
+fire('main-swallows-errors', ['C10', 'C19'], ['C10.G5', 'C19.B6'],
+     (C, "                    raise click.ClickException(str(e)) from e", "                    click.echo(str(e), err=True)"))
+silent('listener-installed-via-helper-order', ['C10', 'C19'],
+       (C, "    lexer.removeErrorListeners()\n    lexer.addErrorListener(listener)\n    stream = CommonTokenStream(lexer)\n    parser = prologParser(stream)\n    parser.removeErrorListeners()\n    parser.addErrorListener(listener)\n",
+           "    stream = CommonTokenStream(lexer)\n    parser = prologParser(stream)\n    for recognizer in (lexer, parser):\n        recognizer.removeErrorListeners()\n    lexer.addErrorListener(listener)\n    parser.addErrorListener(listener)\n"))
+
+# ---------------------------------------------------------------------------------------------
+# C04 / C13 / C15
+fire('predicates-store-on-class', ['C04'], ['C04.I2', 'C04.I3'],
+     (E, "        self._atom_store = {}\n        self._predicates_store = {}\n        self.ATOM_NIL = self.atom(\"[]\")\n        self.ATOM_DOT",
+         "        self._atom_store = {}\n        self.ATOM_NIL = self.atom(\"[]\")\n        self.ATOM_DOT"),
+     (E, "class YP(object):\n    \"\"\"The YieldProlog engine.\"\"\"\n", "class YP(object):\n    \"\"\"The YieldProlog engine.\"\"\"\n    _predicates_store = {}\n"))
+fire('init-mutable-default', ['C04'], ['C04.I3', 'C04.I4'],
+     (E, "    def __init__(self):\n        self._atom_store = {}\n        self._predicates_store = {}", "    def __init__(self, facts={}):\n        self._atom_store = {}\n        self._predicates_store = facts"))
+fire('atom-lru-cache', ['C04'], ['C04.I2'],
+     (E, "    def atom(self, name, module=None):", "    @functools.lru_cache(maxsize=None)\n    def atom(self, name, module=None):"))
+fire('module-level-current-engine', ['C04'], ['C04.I1'],
+     (E, "        yield from self.match_dynamic(self.atom(name), args)", "        global _current_engine\n        _current_engine = self\n        yield from self.match_dynamic(self.atom(name), args)"),
+     (E, "logger = logging.getLogger(__name__)", "logger = logging.getLogger(__name__)\n_current_engine = None"))
+fire('query-counts-calls', ['C04'], ['C04.I7'],
+     (E, "        yield from self.match_dynamic(self.atom(name), args)", "        self._stats = getattr(self, '_stats', {})\n        self._stats[name] = self._stats.get(name, 0) + 1\n        yield from self.match_dynamic(self.atom(name), args)"))
+fire('match-without-copy', ['C13'], ['C13.S2'],
+     (E, "        varmap = {}\n        return unify_arrays(args, [copy_term(v, varmap) for v in self.values])", "        return unify_arrays(args, self.values)"))
+fire('store-get-value-only', ['C13'], ['C13.S1'],
+     (E, "        varmap = {}\n        self.values = [copy_term(v, varmap) for v in values]", "        self.values = [get_value(v) for v in values]"))
+fire('store-varmap-per-argument', ['C13'], ['C13.S1'],
+     (E, "        varmap = {}\n        self.values = [copy_term(v, varmap) for v in values]", "        self.values = [copy_term(v, {}) for v in values]"))
+fire('copy-term-no-deref', ['C13'], ['C13.S3'],
+     (E, "    term = get_value(term)\n    if isinstance(term, Variable):\n        if term not in varmap:", "    if isinstance(term, Variable):\n        if term not in varmap:"))
+fire('copy-term-shares-functor-args', ['C13'], ['C13.S1', 'C13.S2'],
+     (E, "        return Functor(term._name, [copy_term(a, varmap) for a in term._args])", "        return Functor(term._name, list(term._args))"))
+fire('get-value-shallow', ['C15'], ['C15.V1'],
+     (E, "        if not self._is_bound:\n            return self\n        return get_value(self._value)", "        if not self._is_bound:\n            return self\n        if isinstance(self._value, Variable):\n            return self._value.get_value()\n        return self._value"))
+fire('functor-get-value-identity', ['C15'], ['C15.V1'],
+     (E, "        valargs = [ get_value(a) for a in self._args ]\n        return Functor(self._name, valargs)", "        return self"))
+fire('functor-to-python-raw-args', ['C15'], ['C15.V3'],
+     (E, "            args = [to_python(v) for v in self._args]\n            return (self._name, args)", "            return (self._name, self._args)"))
+silent('get-value-explicit-branches', ['C15', 'C13'],
+       (E, "        if not self._is_bound:\n            return self\n        return get_value(self._value)",
+           "        if self._is_bound:\n            return get_value(self._value)\n        else:\n            return self"))
